@@ -473,6 +473,44 @@ theorem clone_isolated (T : Type) (h : Heap T) (a : Nat) (ha : a < h.stores.leng
 
 
 
+/-! ### instances created from ONE shared option (a reused `[]bpmn.Option`, a process set)
+
+`WithVariables(m)` applied to a fresh `Options` allocates a new store and writes `m` into it; applying the SAME
+option value again (second instance) allocates another one. -/
+
+/-- one application of the option `WithVariables(vars)` (values already encoded) -/
+def applyVariables {T : Type} (vars : List (Text × Value T)) (h : Heap T) : Nat × Heap T :=
+  (h.stores.length, vars.foldl (fun h kv => h.write h.stores.length.pred kv.1 kv.2) { stores := h.stores ++ [[]] })
+
+theorem write_length {T : Type} (h : Heap T) (a : Nat) (k : Text) (v : Value T) :
+    (h.write a k v).stores.length = h.stores.length := by
+  simp [Heap.write]
+
+theorem foldl_write_length {T : Type} (vars : List (Text × Value T)) (f : Heap T → Nat) (h : Heap T) :
+    (vars.foldl (fun h kv => h.write (f h) kv.1 kv.2) h).stores.length = h.stores.length := by
+  induction vars generalizing h with
+  | nil => rfl
+  | cons kv r ih => simp only [List.foldl_cons]; rw [ih, write_length]
+
+/-- two instances created from the same option value own different stores: a later write to one of them
+(a task result, `SetVariable`) is invisible in the other, whichever was created first -/
+theorem shared_option_instances_isolated {T : Type} (vars : List (Text × Value T)) (h : Heap T)
+    (k k' : Text) (v : Value T) :
+    let i1 := applyVariables vars h
+    let i2 := applyVariables vars i1.2
+    i1.1 ≠ i2.1 ∧
+    (i2.2.write i1.1 k v).read i2.1 k' = i2.2.read i2.1 k' ∧
+    (i2.2.write i2.1 k v).read i1.1 k' = i2.2.read i1.1 k' := by
+  intro i1 i2
+  have hlen : i1.2.stores.length = h.stores.length + 1 := by
+    show (applyVariables vars h).2.stores.length = _
+    unfold applyVariables
+    rw [foldl_write_length vars (fun h => h.stores.length.pred)]; simp
+  have hne : i1.1 ≠ i2.1 := by
+    show h.stores.length ≠ i1.2.stores.length
+    omega
+  exact ⟨hne, write_other _ _ _ _ _ _ _ hne, write_other _ _ _ _ _ _ _ (Ne.symm hne)⟩
+
 /-! ## The dichotomy -/
 
 /-- side condition on the facts under which C16 holds on the model -/
